@@ -446,7 +446,118 @@ theorem gen_str_replace_range_model (ovf : Bool) (b : Bytes) (sb eb : Bd) (t : B
   have : replaceOvf ovf = true := by simp [replaceOvf, hflag]
   rw [replaceRange, this]; exact gen_str_replace_range ovf b sb eb t
 
+/-! ## loops over what an iterator yields: `Extend<char>`, `Extend<&str>`, `from_iter_in`; `from_str_in`; `+`, `+=`, `fmt::Write` -/
+
+/-- a state whose `len` is inside its buffer -/
+def WFS (s : SB) : Prop := s.2 ≤ s.1.length
+
+theorem text_len {s : SB} (h : WFS s) : (text s).length = s.2 := by
+  unfold text WFS at *; simp [List.length_take]; omega
+
+theorem push_any (c : Char) (s : SB) :
+    Gen.Fn.str_push c s = ((text s ++ encChar c, s.2 + (encChar c).length), .ok ()) := by
+  unfold Gen.Fn.str_push
+  simp only []
+  cases hb : ((encChar c).length == 1) with
+  | false => simp [RsS.extend, RsS.bind]
+  | true =>
+    have h : (encChar c).length = 1 := by simpa using hb
+    simp [RsS.push, RsS.bind, encChar_len_one c h, h]
+
+theorem push_str_any (t : Bytes) (s : SB) :
+    Gen.Fn.str_push_str t s = ((text s ++ t, s.2 + t.length), .ok ()) := by
+  simp [Gen.Fn.str_push_str, RsS.extend, RsS.bind]
+
+theorem text_after {s : SB} (h : WFS s) (t : Bytes) : text (text s ++ t, s.2 + t.length) = text s ++ t ∧ WFS (text s ++ t, s.2 + t.length) := by
+  have hl := text_len h
+  constructor
+  · unfold text; simp only []; apply take_all; simp; omega
+  · unfold WFS; simp; omega
+
+theorem extend_chars_loop (cs : List Char) : ∀ (s : SB), WFS s →
+    ∃ s', Gen.Fn.str_extend_chars.loop cs s = (s', .ok ()) ∧ text s' = cs.foldl push (text s) ∧ WFS s' := by
+  induction cs with
+  | nil => intro s h; exact ⟨s, rfl, rfl, h⟩
+  | cons c cs ih =>
+    intro s h
+    unfold Gen.Fn.str_extend_chars.loop
+    simp only [push_any, RsS.bind]
+    obtain ⟨ht, hw⟩ := text_after h (encChar c)
+    obtain ⟨s', h1, h2, h3⟩ := ih _ hw
+    exact ⟨s', h1, by rw [h2, ht]; rfl, h3⟩
+
+theorem from_iter_loop_eq (cs : List Char) : ∀ (s : SB), Gen.Fn.str_from_iter_in.loop cs s = Gen.Fn.str_extend_chars.loop cs s := by
+  induction cs with
+  | nil => intro s; rfl
+  | cons c cs ih =>
+    intro s
+    unfold Gen.Fn.str_from_iter_in.loop Gen.Fn.str_extend_chars.loop
+    simp only [ih]
+
+theorem extend_strs_loop (ts : List Bytes) : ∀ (s : SB), WFS s →
+    ∃ s', Gen.Fn.str_extend_strs.loop ts s = (s', .ok ()) ∧ text s' = ts.foldl pushStr (text s) ∧ WFS s' := by
+  induction ts with
+  | nil => intro s h; exact ⟨s, rfl, rfl, h⟩
+  | cons t ts ih =>
+    intro s h
+    unfold Gen.Fn.str_extend_strs.loop
+    simp only [push_str_any, RsS.bind]
+    obtain ⟨ht, hw⟩ := text_after h t
+    obtain ⟨s', h1, h2, h3⟩ := ih _ hw
+    exact ⟨s', h1, by rw [h2, ht]; rfl, h3⟩
+
+/-- `Extend<char>`: whatever lower bound the iterator reports, the characters are pushed in order -/
+theorem gen_str_extend_chars (b : Bytes) (cs : List Char) (hint : Nat) :
+    finU (Gen.Fn.str_extend_chars cs hint (b, b.length)) = .ok (extendChars b cs) := by
+  unfold Gen.Fn.str_extend_chars
+  simp only [RsS.reserve, RsS.bind, text_full]
+  have hw : WFS (b ++ List.replicate hint 0, b.length) := by unfold WFS; simp
+  have ht : text (b ++ List.replicate hint 0, b.length) = b := by unfold text; simp
+  obtain ⟨s', h1, h2, _⟩ := extend_chars_loop cs _ hw
+  rw [h1]
+  simp only [finU, h2, ht, extendChars]
+
+/-- `Extend<&str>` -/
+theorem gen_str_extend_strs (b : Bytes) (ts : List Bytes) :
+    finU (Gen.Fn.str_extend_strs ts (b, b.length)) = .ok (ts.foldl pushStr b) := by
+  unfold Gen.Fn.str_extend_strs
+  have hw : WFS (b, b.length) := by unfold WFS; simp
+  obtain ⟨s', h1, h2, _⟩ := extend_strs_loop ts _ hw
+  rw [h1]
+  simp only [RsS.bind, finU, h2, text_full]
+
+/-- `String::from_iter_in`: a fresh string, then the characters pushed in order -/
+theorem gen_str_from_iter_in (cs : List Char) (s0 : SB) :
+    finU (Gen.Fn.str_from_iter_in cs s0) = .ok (fromIter cs) := by
+  unfold Gen.Fn.str_from_iter_in
+  simp only [from_iter_loop_eq]
+  have hw : WFS (([] : Bytes), 0) := by unfold WFS; simp
+  obtain ⟨s', h1, h2, _⟩ := extend_chars_loop cs _ hw
+  rw [h1]
+  simp only [RsS.bind, finU, h2, fromIter, extendChars]
+  rfl
+
+/-- `String::from_str_in(t)`: capacity for `t`, one copy, the length store — the text is `t` -/
+theorem gen_str_from_str_in (t : Bytes) (s0 : SB) : finU (Gen.Fn.str_from_str_in t s0) = .ok t := by
+  unfold Gen.Fn.str_from_str_in
+  simp [RsS.reserve, RsS.copy_in, RsS.set_len, RsS.bind, finU, text]
+
+theorem gen_str_add (b t : Bytes) : finU (Gen.Fn.str_add t (b, b.length)) = .ok (pushStr b t) := gen_str_push_str b t
+theorem gen_str_add_assign (b t : Bytes) : finU (Gen.Fn.str_add_assign t (b, b.length)) = .ok (pushStr b t) := gen_str_push_str b t
+theorem gen_str_write_str (b t : Bytes) : finU (Gen.Fn.str_write_str t (b, b.length)) = .ok (pushStr b t) := gen_str_push_str b t
+theorem gen_str_write_char (b : Bytes) (c : Char) : finU (Gen.Fn.str_write_char c (b, b.length)) = .ok (push b c) := by
+  have h := gen_str_push b c
+  unfold Gen.Fn.str_write_char
+  simp only []
+  generalize Gen.Fn.str_push c (b, b.length) = r at h ⊢
+  obtain ⟨s', o⟩ := r
+  cases o <;> simp_all [RsS.bind, finU]
+
 #print axioms gen_str_drain
+#print axioms gen_str_extend_chars
+#print axioms gen_str_extend_strs
+#print axioms gen_str_from_iter_in
+#print axioms gen_str_from_str_in
 #print axioms gen_str_replace_range
 #print axioms gen_str_drain_drop
 #print axioms gen_str_retain
